@@ -19,15 +19,22 @@
                     [99;_]         the harness gave up waiting
           outputs   [2;upd;cok;seqs…]  PostData called      [4;n]  last push seq stored
                     [5;s]  status stored    [8]  task started    [9;code]  addSubscriber result
+    CReg ty maxsize store trace
+        one history of several task goroutines of one subscriber name with
+        registration, start-up and shutdown steps: see CheckReg.v
+    CRace …
+        what one subscriber's endpoint received in a free-running double registration: see CheckReg.v
     store = size_0; has_0; size_1; has_1; … *)
 From Coq Require Import List ZArith NArith Bool.
-From C33 Require Import Lib.Harness C32.Model C32.Spec.
+From C33 Require Import Lib.Harness C32.Model C32.Spec C32.ModelReg C32.CheckReg.
 Import ListNotations.
 Open Scope Z_scope.
 
 Inductive case :=
 | CGpd (ty : Z) (st : list Z) (start count max : Z) (res : list Z)
-| CHist (ty maxsize f2s : Z) (st : list Z) (trace : list (list Z)).
+| CHist (ty maxsize f2s : Z) (st : list Z) (trace : list (list Z))
+| CReg (ty maxsize : Z) (st : list Z) (trace : list (list Z))
+| CRace (ty maxsize : Z) (st : list Z) (r0 L rcd spawns complete : Z) (codes : list Z) (posts : list (list Z)).
 
 Fixpoint decode_store (l : list Z) : store :=
   match l with
@@ -228,4 +235,7 @@ Definition check_case (c : case) : verdict :=
   match c with
   | CGpd ty st start count max res => check_gpd ty st start count max res
   | CHist ty maxsize f2s st trace => check_hist ty maxsize f2s st trace
+  | CReg ty maxsize st trace => check_reg ty maxsize st trace
+  | CRace ty maxsize st r0 L rcd spawns complete codes posts =>
+      check_race ty maxsize st r0 L rcd spawns complete codes posts
   end.
